@@ -155,4 +155,20 @@ theorem skel_appDirector_validateRedirect_ok : skel_appDirector_validateRedirect
   "logger.Errorf",
   "return \"\""] : List String) := rfl
 
+theorem flags_redirect_ok : flags_redirect = ([
+  "Bool encode-state = false",
+  "String proxy-prefix = \"/oauth2\"",
+  "String redirect-url = \"\"",
+  "Bool relative-redirect-url = false",
+  "Bool skip-provider-button = false",
+  "StringSlice whitelist-domain = []string{}"] : List String) := rfl
+
+theorem optionTags_redirect_ok : optionTags_redirect = ([
+  "encode-state encode_state Options.EncodeState bool",
+  "proxy-prefix proxy_prefix Options.ProxyPrefix string",
+  "redirect-url redirect_url Options.RawRedirectURL string",
+  "relative-redirect-url relative_redirect_url Options.RelativeRedirectURL bool",
+  "skip-provider-button skip_provider_button Options.SkipProviderButton bool",
+  "whitelist-domain whitelist_domains Options.WhitelistDomains []string"] : List String) := rfl
+
 end O2P.Expect.C06
